@@ -781,6 +781,50 @@ func genIDs(repo, out string) error {
 		}
 		fmt.Fprintf(&b, "def hash_%s : String := %s\n\n", n, leanStr(sum))
 	}
+	// The id generator of a session is shared by every goroutine that uses the client API
+	// (request ids) and by the dealer (invocation ids): it must be the mutex-protected one.
+	sessGen := ""
+	ast.Inspect(fSession, func(n ast.Node) bool {
+		ts, ok := n.(*ast.TypeSpec)
+		if !ok || ts.Name.Name != "Session" {
+			return true
+		}
+		if st, ok := ts.Type.(*ast.StructType); ok {
+			for _, fld := range st.Fields.List {
+				for _, nm := range fld.Names {
+					if nm.Name == "IDGen" {
+						sessGen = c19ExprString(fset, fld.Type)
+					}
+				}
+			}
+		}
+		return false
+	})
+	var syncShape []string
+	if fd := c19FindFunc(fIdgen, "SyncIDGen", "Next"); fd != nil && fd.Body != nil {
+		for _, st := range fd.Body.List {
+			switch x := st.(type) {
+			case *ast.ExprStmt:
+				syncShape = append(syncShape, c19ExprString(fset, x.X))
+			case *ast.DeferStmt:
+				syncShape = append(syncShape, "defer "+c19ExprString(fset, x.Call))
+			case *ast.ReturnStmt:
+				if len(x.Results) == 1 {
+					syncShape = append(syncShape, "return "+c19ExprString(fset, x.Results[0]))
+				} else {
+					syncShape = append(syncShape, "return ?")
+				}
+			default:
+				syncShape = append(syncShape, "?")
+			}
+		}
+	}
+	fmt.Fprintf(&b, "/-- the type of the field `IDGen` of `wamp.Session` -/\ndef sessionIDGenType : String := %s\n\n", leanStr(sessGen))
+	rows := make([]string, len(syncShape))
+	for i, x := range syncShape {
+		rows[i] = leanStr(x)
+	}
+	fmt.Fprintf(&b, "/-- the statements of `(*SyncIDGen).Next` -/\ndef syncIDGenNext : List String := [%s]\n\n", strings.Join(rows, ", "))
 	b.WriteString("end Nexus.Gen\n")
 	return writeIfChanged(filepath.Join(out, "Ids.lean"), []byte(b.String()))
 }
